@@ -30,7 +30,7 @@ def includes():
             os.path.join(vlib.BUILD, "mtest", "include"), os.path.join(vlib.BUILD, "mfront", "include")]
 
 
-def build(ck, name, main, sources, sanitize=True):
+def build(ck, name, main, sources, sanitize=True, extra_includes=()):
     """compile `sources` (names under mtest/src of the current tree) and the harness `main` in parallel,
     link against the prebuilt TFEL libraries; returns the binary path"""
     if vlib.BUILD_MATCHES_REPO:
@@ -44,7 +44,7 @@ def build(ck, name, main, sources, sanitize=True):
     from concurrent.futures import ThreadPoolExecutor
     objs = {}
     with ThreadPoolExecutor(max_workers=4) as ex:   # at most 4 parallel compiles (shared machine)
-        futs = {j[0]: ex.submit(ck.cxx, j[0], j[1], flags=["-c"], includes=includes(), defines=DEFINES,
+        futs = {j[0]: ex.submit(ck.cxx, j[0], j[1], flags=["-c"], includes=includes() + list(extra_includes), defines=DEFINES,
                                 sanitize=sanitize) for j in jobs}
         for n, f in futs.items():
             objs[n] = f.result()
